@@ -217,10 +217,10 @@ pub fn run(ctx: &Ctx) {
     let n = crate::props::c01::seq_count(9, l);
     indexed_stage(ctx, "exhaustive", n, |i| crate::props::c01::seq_at(9, i).into_iter().map(alphabet9).collect::<Vec<Op>>(), |ops, local| run_history(ops, local));
     ctx.extra("exhaustive_stage", json!({"alphabet": ALPHABET9, "max_len": l, "sequences": n, "exhaustive": true}));
-    random_stage(ctx, "random", ctx.tier.pick(8_000, 150_000), history_strategy, |ops: &Vec<Op>, local| run_history(ops, local));
-    random_stage(ctx, "replicas", ctx.tier.pick(1_500, 30_000), || session_strategy(24), |ops: &Vec<SOp>, local| run_replica(ops, local));
+    random_stage(ctx, "random", ctx.tier.pick(8_000, 600_000), history_strategy, |ops: &Vec<Op>, local| run_history(ops, local));
+    random_stage(ctx, "replicas", ctx.tier.pick(1_500, 100_000), || session_strategy(24), |ops: &Vec<SOp>, local| run_replica(ops, local));
     let seed = ctx.seed;
-    random_stage(ctx, "crash-in-make-read-only", ctx.tier.pick(600, 12_000), crash_history_strategy, move |ops: &Vec<Op>, local| run_crash(ops, seed, local));
+    random_stage(ctx, "crash-in-make-read-only", ctx.tier.pick(600, 40_000), crash_history_strategy, move |ops: &Vec<Op>, local| run_crash(ops, seed, local));
     let _ = Blk { len: 0, fill: 0 };
 }
 
